@@ -11,6 +11,7 @@ R-TARJAN     the cycle finder has the clauses of Tarjan's SCC algorithm that are
 from __future__ import annotations
 
 import ast
+import re
 
 from ..pyfacts import call_name, walk_no_nested_funcs
 from ..report import AnalysisError, RuleResult
@@ -326,13 +327,33 @@ def aliasdeps(repo):
                 for k in n.keywords:
                     if k.arg == "path" and isinstance(k.value, ast.List) and len(k.value.elts) == 2:
                         two = True
-    res.instances += 2
-    if first_only and two:
+    # compensation: the function that fills fields_in_dependency_order may complete the graph itself -- it takes the
+    # mapping it orders by from a helper that looks at the two-component aliases whose head is an anonymous field
+    # (`is_anonymous`, `path[1]`), reads the member's own dependencies and adds edges between sibling aliases
+    compensated = False
+    byname = {f.name: f for f in m.top_funcs()}
+    for f in m.top_funcs():
+        if "fields_in_dependency_order" not in ast.unparse(f.node) or "structure" not in [a.arg for a in f.node.args.args]:
+            continue
+        used = {ast.unparse(n.value) for n in walk_no_nested_funcs(f.node) if isinstance(n, ast.Subscript) and isinstance(n.ctx, ast.Load)
+                and isinstance(n.value, ast.Name) and n.value.id.startswith("dependenc")}
+        for n in walk_no_nested_funcs(f.node):
+            if isinstance(n, ast.Assign) and len(n.targets) == 1 and isinstance(n.targets[0], ast.Name) and n.targets[0].id in used \
+                    and isinstance(n.value, ast.Call) and call_name(n.value) in byname:
+                g = byname[call_name(n.value)]
+                src = ast.unparse(g.node)
+                adds = any(isinstance(x, ast.Assign) and isinstance(x.targets[0], ast.Subscript) and isinstance(x.value, ast.BinOp)
+                           and isinstance(x.value.op, ast.BitOr) for x in walk_no_nested_funcs(g.node)) or \
+                    any(isinstance(x, ast.AugAssign) and isinstance(x.target, ast.Subscript) and isinstance(x.op, ast.BitOr) for x in walk_no_nested_funcs(g.node))
+                if "is_anonymous" in src and re.search(r"path\[1\]", src) and adds and re.search(r"dependencies(\.get\(|\[)\s*member", src):
+                    compensated = True
+    res.instances += 3
+    if first_only and two and not compensated:
         res.add(f"{DC}|{rec.name}|first-component-only", f"{rec.name} records `reference.path[0]` only, while synthetics.py creates alias "
                 "fields reading `anonymous_bits.member` (two components) whose presence depends on the member's own condition: "
                 "an alias whose member is conditional on a sibling member is not ordered after that sibling's alias, so "
                 "fields_in_dependency_order (Ok(), text output) lists it first", DC, rec.line, rec.name)
-    res.samples = [f"{rec.name}: first component only = {first_only}; two-component aliases synthesised = {two}"]
+    res.samples = [f"{rec.name}: first component only = {first_only}; two-component aliases synthesised = {two}; ordering pass adds member dependencies = {compensated}"]
     res.analysed = [DC, "compiler/front_end/synthetics.py"]
     return res
 
